@@ -1418,13 +1418,16 @@ Error query_rw_info(Arch arch, const BaseInst& inst, const Operand_* operands, s
           out->_operands[0].reset(W, size0);
           out->_operands[1].reset(R, size1);
 
+          // Embedded rounding {er} and {sae} are only available in register-only forms.
+          const bool rm_allowed = !inst.has_option(InstOptions::kX86_ER | InstOptions::kX86_SAE);
+
           // Zeroing {z} cannot be combined with a memory destination.
-          if ((inst_rm_info.rm_ops_mask & 0x1) && !inst.has_option(InstOptions::kX86_ZMask)) {
+          if (rm_allowed && (inst_rm_info.rm_ops_mask & 0x1) && !inst.has_option(InstOptions::kX86_ZMask)) {
             out->_operands[0].add_op_flags(RegM);
             out->_operands[0].set_rm_size(size0);
           }
 
-          if (inst_rm_info.rm_ops_mask & 0x2) {
+          if (rm_allowed && (inst_rm_info.rm_ops_mask & 0x2)) {
             out->_operands[1].add_op_flags(RegM);
             out->_operands[1].set_rm_size(size1);
           }
@@ -1509,12 +1512,15 @@ Error query_rw_info(Arch arch, const BaseInst& inst, const Operand_* operands, s
         }
 
         if (operands[0].is_reg() && operands[1].is_reg()) {
-          if (inst_rm_info.rm_ops_mask & 0x1) {
+          // Embedded rounding {er} and {sae} are only available in register-only forms.
+          const bool rm_allowed = !inst.has_option(InstOptions::kX86_ER | InstOptions::kX86_SAE);
+
+          if (rm_allowed && (inst_rm_info.rm_ops_mask & 0x1)) {
             out->_operands[0].add_op_flags(RegM);
             out->_operands[0].set_rm_size(size0);
           }
 
-          if (inst_rm_info.rm_ops_mask & 0x2) {
+          if (rm_allowed && (inst_rm_info.rm_ops_mask & 0x2)) {
             out->_operands[1].add_op_flags(RegM);
             out->_operands[1].set_rm_size(size1);
           }
